@@ -67,12 +67,23 @@ def runOrd (c : Case) : Res :=
   | some vs =>
     let outS := (c.ob "out").getD []
     if outS.head? == some "panic" then { status := "ORACLE", detail := s!"ordering strategy {strat} panicked" } else
+    -- a typed error (parameter validation of the public sort helpers) is no ordering: nothing to judge
+    if outS.head? == some "err" then { status := "skip", stats := [s!"ord.strategy{strat}.err"] } else
     let got := natsOf outS
     Id.run do
       let mut bad : List String := []
       let stats := [s!"ord.strategy{strat}", s!"ord.exactq{c.arg "exactq"}"]
+      -- the keys the implementation itself assigns, in output order, must be non-decreasing
+      match c.ob "keys" with
+      | some ks =>
+        let kn := ks.filterMap String.toNat?
+        if kn.length != ks.length then bad := s!"ordering strategy {strat}: a sort key could not be computed" :: bad
+        else if !(kn.zip (kn.drop 1)).all (fun (a, b) => a ≤ b) then
+          bad := s!"ordering strategy {strat}: keys in output order are not non-decreasing: {kn}" :: bad
+      | none => pure ()
       if !isPermOf got (vs.map (·.idx)) then
         bad := s!"ordering strategy {strat} output {got} is not a permutation of the input indices" :: bad
+      else if strat ≥ 10 then pure ()
       else
         let want := (orderByStrategy d strat vs).map (·.idx)
         -- signed zeros compare equal but hash differently: the hash tie-break is outside the model
